@@ -25,6 +25,7 @@ pub struct Config {
     pub policy: &'static str,
     pub item_size: u32,
     pub conn_limit: u32,
+    pub mem_limit: u64,
     pub port: u16,
 }
 
@@ -45,11 +46,11 @@ impl Config {
             "-i".into(),
             format!("{}B", self.item_size),
             "-m".into(),
-            "64MiB".into(),
+            format!("{}B", self.mem_limit),
         ]
     }
     pub fn label(&self) -> String {
-        format!("{}-t{}-{}-i{}-c{}", self.runtime, self.threads, self.policy, self.item_size, self.conn_limit)
+        format!("{}-t{}-{}-i{}-c{}-m{}", self.runtime, self.threads, self.policy, self.item_size, self.conn_limit, self.mem_limit)
     }
 }
 
@@ -191,6 +192,57 @@ pub fn run_config(cfg: &Config, seed: u64, steps: usize, trace: &mut String, obs
     let _ = writeln!(obs, "SERVED-COUNT {}", served);
     drop(socks);
     std::thread::sleep(Duration::from_millis(100));
+    // 2b. the configured memory limit is the one the eviction policy enforces: below it
+    // nothing is lost; pushed beyond it, what stays stored is pinned to (limit - one
+    // record, limit + one record]
+    if cfg.policy == "random" {
+        let mut s = TcpStream::connect(addr).unwrap();
+        s.set_nodelay(true).unwrap();
+        let _ = exchange(&mut s, &Req::new(op::FLUSH).opaque(1).bytes(), 0xcc00_0000, Duration::from_secs(5));
+        let vlen = 1000usize.min(cfg.item_size as usize - 64);
+        let rec = 24 + vlen as u64;
+        let n1 = (cfg.mem_limit * 15 / 16 / rec) as usize;
+        let n2 = (cfg.mem_limit / 2 / rec) as usize + 2;
+        let val = vec![b'm'; vlen];
+        // pipelined in batches of 64 requests
+        let put = |s: &mut TcpStream, from: usize, to: usize| {
+            let mut i = from;
+            while i < to {
+                let mut batch = Vec::new();
+                let end = (i + 64).min(to);
+                for j in i..end {
+                    let key = format!("mp{}", j);
+                    batch.extend_from_slice(&crate::gen::set_like(op::SETQ, key.as_bytes(), &val, 0, 0).bytes());
+                }
+                let _ = exchange(s, &batch, 0xcc10_0000 + i as u32, Duration::from_secs(10));
+                i = end;
+            }
+        };
+        let count = |s: &mut TcpStream, n: usize| -> usize {
+            let mut hits = 0;
+            let mut i = 0;
+            while i < n {
+                let mut batch = Vec::new();
+                let end = (i + 64).min(n);
+                for j in i..end {
+                    let key = format!("mp{}", j);
+                    batch.extend_from_slice(&Req::new(op::GET).key(key.as_bytes()).opaque(9).bytes());
+                }
+                let (r, _) = exchange(s, &batch, 0xcc20_0000 + i as u32, Duration::from_secs(10));
+                hits += r.iter().filter(|x| parse_resp(x).map(|(f, _)| f.opcode == op::GET && f.status == 0).unwrap_or(false)).count();
+                i = end;
+            }
+            hits
+        };
+        put(&mut s, 0, n1);
+        let all_hit = count(&mut s, n1) == n1;
+        put(&mut s, n1, n1 + n2);
+        let stored = count(&mut s, n1 + n2) as u64 * rec;
+        let pinned = stored + rec > cfg.mem_limit && stored <= cfg.mem_limit + rec;
+        let _ = exchange(&mut s, &Req::new(op::FLUSH).opaque(1).bytes(), 0xcc00_0001, Duration::from_secs(5));
+        let _ = writeln!(trace, "MEMPROBE");
+        let _ = writeln!(obs, "MEM below-limit-all-hit={} stored-pinned-to-limit={}", all_hit as u8, pinned as u8);
+    }
     // 3. expiry follows real seconds (tick-granular clock: ttl 3 lives 2..3 wall seconds)
     let mut s = TcpStream::connect(addr).unwrap();
     s.set_nodelay(true).unwrap();
@@ -224,6 +276,9 @@ pub fn configs(seed: u64, n: usize, base_port: u16) -> Vec<Config> {
     let mut out = Vec::new();
     // the first ones are fixed so that every run covers both runtimes, several
     // listeners and both policies; the rest is drawn
+    // memory limits far above what the generated program stores (so that policy 'random'
+    // is transparent for it), small enough for the memory probe to fill
+    let mems = [262144u64, 393216, 524288];
     let fixed: Vec<(&'static str, usize, &'static str, u32, u32)> = vec![
         ("current-thread", 1, "none", 1024, 2),
         ("current-thread", 2, "none", 2048, 1),
@@ -244,7 +299,8 @@ pub fn configs(seed: u64, n: usize, base_port: u16) -> Vec<Config> {
                 1 + rng.below(4) as u32,
             )
         };
-        out.push(Config { runtime, threads, policy, item_size, conn_limit, port: base_port + i as u16 });
+        let mem_limit = if policy == "random" && item_size <= 4096 { mems[i % mems.len()] } else { 64 << 20 };
+        out.push(Config { runtime, threads, policy, item_size, conn_limit, mem_limit, port: base_port + i as u16 });
     }
     out
 }
